@@ -14,7 +14,8 @@ LEVEL_TEXT = ("Histories edit -> --check -> edit on generated trees over all pla
               "on/off: the check must pass, the second edit must change no byte and keep the lock value. Then, per statement that "
               "received an ID, a probe history rewrites that one number to a fresh large M, removes the lock, adds a statement and "
               "runs edit: the new ID must exceed M, which holds iff the edited statement is still recognised and read back with its "
-              "number. Sampled inputs: exploration.")
+              "number. In 30% of the cases the first edit additionally meets one I/O error on a scratch file: if it still exits 0 the "
+              "same consequences are demanded. Sampled inputs: exploration.")
 LEVEL_NOTE = ("Trusted: the tool's own scan-for-the-maximum is the observer of read-back (no parser model in the harness); planted "
               "shapes are forms the log crate accepts.")
 RULE = ("case = generated tree; 3 runs + 1 run per inserted reference (capped at 8 probes). Non-trivial = first edit inserted at "
